@@ -173,7 +173,17 @@ def solve_all(obls, budget, jobs=None, cross=False):
         if obls[i].kind == "canary" or obls[i].kind.startswith("cover."):
             # expected SAT; only z3, short budget (an unknown here is simply 'not refuted on this path')
             rr, dt, _ = _run([Z3_BIN, "-in", "-T:%d" % min(budget, 8)], texts[i], min(budget, 8))
-            return {"result": rr if rr in ("sat", "unsat") else "unknown", "backend": "z3", "seconds": dt}
+            be = "z3"
+            if rr not in ("sat", "unsat") and CVC5_BIN:
+                # models of sequence formulas: cvc5 (with finite model finding for the quantified definitions) often finds them
+                for extra in ([], ["--strings-fmf", "--finite-model-find"]):
+                    r2, dt2, _ = _run([CVC5_BIN, "--lang=smt2", "--strings-exp"] + extra + ["--tlimit=%d" % (min(budget, 8) * 1000)],
+                                      "(set-logic ALL)\n" + texts[i], min(budget, 8))
+                    dt += dt2
+                    if r2 in ("sat", "unsat"):
+                        rr, be = r2, "cvc5"
+                        break
+            return {"result": rr if rr in ("sat", "unsat") else "unknown", "backend": be, "seconds": dt}
         r = None
         if sliced[i] is not None:
             # first try with the assumptions in the goal's cone of influence only; unsat there is unsat in full
